@@ -284,11 +284,10 @@ Proof. exact gstep_limits. Qed.
 Print Assumptions C04_sender_glue_limits_advertised.
 
 (** retransmissions add nothing: every frame any popStreamFrame ever returned (first transmission,
-    retransmission, split or truncated piece) ends at or below the stream's write offset.
-    ([late]: enableResetStreamAt() on an already reset stream, see C01.) *)
+    retransmission, split or truncated piece) ends at or below the stream's write offset —
+    for every history (C01's historic [late] flag is provably never set: step_late_eq). *)
 Theorem C04_sender_glue_retransmissions_add_nothing : forall ops,
   let g := grun_state ginit ops in
-  Forall lateF (strs g) ->
   Forall (fun s => Forall (fun f => f_end f <= writeOffset s) (emitted s)) (strs g).
 Proof. exact sender_glue_frames_within_credit. Qed.
 Print Assumptions C04_sender_glue_retransmissions_add_nothing.
